@@ -230,6 +230,12 @@ def term_rule(chk, prog, res):
             if c.get("kind") == "CallExpr" and callee_name(c) == fn:
                 n += 1
                 ps = prog.params(f)
+                if not any("char" in qtype(p) and ("*" in qtype(p) or "[" in qtype(p)) for p in ps):
+                    # recursion that is not driven by the input text (a retry written as a tail call): like the loops of the
+                    # emitters its termination is not claimed by this rule
+                    chk.ok("TERM", "TERM/recursion/%s" % fn, loc_str(c),
+                           "the self-recursive call in %s does not walk the input text (termination not claimed here, as for the emitters' loops)" % fn)
+                    continue
                 ok = False
                 why = "no growing bounded parameter"
                 for i, p in enumerate(ps):
